@@ -25,6 +25,20 @@ const backlogTrendRetention = 30 * 24 * time.Hour
 const defaultSQLiteCheckpointInterval = time.Minute
 const defaultSQLiteLeaseSweepInterval = 10 * time.Millisecond
 
+// maxUnixNanoTime is the latest instant the INTEGER nanosecond columns can hold.
+var maxUnixNanoTime = time.Unix(0, math.MaxInt64).UTC()
+
+// addClamped is t.Add(d) kept within the range of the INTEGER nanosecond
+// columns: a lease TTL, extension or delay of centuries must stay in the far
+// future instead of wrapping around into the past.
+func addClamped(t time.Time, d time.Duration) time.Time {
+	out := t.Add(d)
+	if d > 0 && out.After(maxUnixNanoTime) {
+		return maxUnixNanoTime
+	}
+	return out
+}
+
 var sqliteDurationHistogramBounds = []float64{
 	0.001, // 1ms
 	0.002, // 2ms
@@ -1015,7 +1029,7 @@ func (s *SQLiteStore) dequeueOnce(req DequeueRequest, batch int, leaseTTL time.D
 	if now.IsZero() {
 		now = s.now()
 	}
-	leaseUntil := now.Add(leaseTTL)
+	leaseUntil := addClamped(now, leaseTTL)
 
 	ctx := context.Background()
 	conn, err := s.db.Conn(ctx)
@@ -1422,7 +1436,7 @@ func (s *SQLiteStore) Nack(leaseID string, delay time.Duration) error {
 	}
 
 	err := s.withLeaseMutation(leaseID, func(ctx context.Context, conn *sql.Conn, now time.Time, leaseID string) (int64, error) {
-		nextRunAt := now.Add(delay)
+		nextRunAt := addClamped(now, delay)
 		return execRowsAffectedTx(ctx, conn, `
 UPDATE queue_items
 SET state = ?, lease_id = NULL, lease_until = NULL, next_run_at = ?, dead_reason = NULL
@@ -1450,7 +1464,7 @@ func (s *SQLiteStore) NackBatch(leaseIDs []string, delay time.Duration) (LeaseBa
 	}
 
 	res, err := s.withLeaseBatch(leaseIDs, func(ctx context.Context, conn *sql.Conn, now time.Time, itemIDs []string) error {
-		nextRunAt := now.Add(delay)
+		nextRunAt := addClamped(now, delay)
 		return s.execByItemIDsTx(ctx, conn, `
 UPDATE queue_items
 SET state = ?, lease_id = NULL, lease_until = NULL, next_run_at = ?, dead_reason = NULL
@@ -1474,14 +1488,16 @@ func (s *SQLiteStore) Extend(leaseID string, extendBy time.Duration) error {
 		extendNanos := extendBy.Nanoseconds()
 		return execRowsAffectedTx(ctx, conn, `
 UPDATE queue_items
-SET lease_until = lease_until + ?, next_run_at = lease_until + ?
+SET lease_until = MIN(lease_until + ?, ?), next_run_at = MIN(lease_until + ?, ?)
 WHERE lease_id = ?
   AND state = ?
   AND lease_until IS NOT NULL
   AND lease_until > ?;
 `,
 			extendNanos,
+			int64(math.MaxInt64),
 			extendNanos,
+			int64(math.MaxInt64),
 			leaseID,
 			string(StateLeased),
 			now.UnixNano(),
